@@ -243,6 +243,32 @@ CHECKS: Dict[str, Dict[str, str]] = {
         note="Trusted: struct.pack/unpack; LSB-first bit arithmetic of write_bits/read_bits (offset accounting is decided in C07.R3).",
         design="3/C06",
     ),
+    "C08": dict(
+        technique="static analysis: the offset iterators are translated into traces over terms of the bit-length-set algebra "
+        "(assignments, loops, yields in order) and compared with the Specification's; exactly-once-yield lint; wiring of the "
+        "in-language intrinsics by dataflow and selection agreement",
+        text="Decides: the four iterators (structure, union, delimited, fixed array) pad the base to the type's alignment and "
+        "place each field / element exactly where the layout model and the encoder place it (the iterator's per-field step is "
+        "the aggregation step of the layout model), with one unconditional yield per iteration; `_offset_` is the aggregate of "
+        "exactly the fields declared so far, of the kind selected by the same union flag as the final type, without final "
+        "padding; `_bit_length_` / `_extent_` are bit_length_set / extent; every _attribute override falls back to super(); a "
+        "union rejects fields once its offset has been observed. Numerical equality of the sets is C01's (undecided) part.",
+        note="Trusted: exactness of the bit-length-set algebra (C01); header is a multiple of the alignment (C02).",
+        design="3/C08",
+    ),
+    "C14": dict(
+        technique="static analysis: dependence analysis of the delimited type's layout term, attribute-usage lint on containers, "
+        "layout traces of the delimited writer / reader branches, who-may-access rule on the reader's buffer and interface",
+        text="Decides the three structural pillars of appendable types: (1) the delimited type's length set is a term over header "
+        "width, alignment and declared extent only (the inner type is consulted only in the guard) and containers ask a nested "
+        "type only for its length set and alignment - so a same-extent revision cannot change a container's set, extent or "
+        "following offsets; (2) the writer announces the byte length of the serialized inner object and the reader confines "
+        "the nested object to 8 x header bits, at the nested and the top-level copies; (3) the inner object is decoded from "
+        "the bounded sub-reader and the branch ends there; plus: the reader's buffer is accessed only where the limit is "
+        "enforced and the decoder uses only the limit-aware reader interface. Value preservation across revisions is not decided.",
+        note="Trusted: offset accounting and limit agreement of _BitReader (C07.R3/R5); composite alignment = 8 (C02.R4).",
+        design="3/C14",
+    ),
 }
 
 NOT_APPLICABLE: Dict[str, str] = {}
